@@ -262,6 +262,10 @@ class ElementNode(XmlNode):
             Whether the parsed object can fit in one of class
             parameters or not.
         """
+        if qname is None:
+            # Text between child elements, only mixed content can bind it
+            return False
+
         wrapper = self.pop_wrapper(qname)
         for var in self.meta.find_children(qname):
             if wrapper and var.wrapper_qname != wrapper:
